@@ -10,7 +10,10 @@ runtime_error assign (coq/gen/VmFields.v), compared by computation with the list
 command `replmods`, the H5 record (CS ...) + output + outcome + loader calls after every snippet against eval_mech;
 (c) impl == S: the same records against eval_spec; metamorphic oracles on the implementation alone: a failing
 snippet replaced by just its completed definitions, and RESET replaced by a newly created Vm; the full reference
-interpreter (SpecScripts.run_repl_case) on a sample when it is available.  Debug AND release builds."""
+interpreter (SpecScripts.run_repl_case) on a sample when it is available.  Debug AND release builds.
+(d) clean-up at SCALE (round 8): ReuseScale.v (every fiber of a caller chain of ANY length is over after a failed run; a walk bounded
+by a constant is refuted beyond the bound) + scale_check: waiting fibers / frames / open upvalues / handlers / loading modules /
+definitions before RESET at sizes 2, 63..66, 130, 250 - against the same run completing normally and against the smallest size."""
 import os
 
 import yvlib
@@ -1173,9 +1176,18 @@ SCALE_FAMILIES = {
 }
 
 
-def scale_cases(quick, rot):
+def scale_cases(quick, rot, profile="release"):
     res = []
     for fam, (fn, kinds, places, sizes) in SCALE_FAMILIES.items():
+        if profile == "debug" and fam in ("reset", "modules_mid_import"):
+            # 130 modules take 7 - 20 s per history on the debug build (it collects at every allocation) on an idle machine: too close
+            # to the case time-out under load; the release build runs them
+            sizes = [n for n in sizes if n <= 66]
+        if quick and profile == "debug":
+            # the debug build is ~50x slower: the smallest and the largest size, the first size beyond the frame limit, the deepest
+            # recursion that fits, and one of the remaining sizes (rotating with the seed); the release build runs every size
+            rest = [n for n in sizes[1:-1] if n not in (65, 62)]
+            sizes = sorted(set([sizes[0], sizes[-1]] + [n for n in sizes if n in (65, 62)] + ([rest[rot % len(rest)]] if rest else [])))
         combos = [(k, p) for k in kinds for p in places]
         if quick:
             # the first (kind, place) + two more that rotate with the seed
@@ -1213,7 +1225,7 @@ def scale_check(ctx, binary, profile, mods_items, only=None):
         pairs = [dict(only, label="replay")]   # keeps a / b / k / np / mods / why
     else:
         quick = ctx.quick() if hasattr(ctx, "quick") else True
-        cases = scale_cases(quick, ctx.rng.randrange(1000) if hasattr(ctx, "rng") else 0)
+        cases = scale_cases(quick, ctx.rng.randrange(1000) if hasattr(ctx, "rng") else 0, profile)
         pairs = [dict(c, why="completed") for c in cases]
         smallest = {}
         for c in cases:
